@@ -65,17 +65,42 @@ def TNode.payload : TNode → Bytes | .mk _ _ p _ _ => p
 def TNode.attr : TNode → Attr | .mk _ _ _ a _ => a
 def TNode.children : TNode → List TNode | .mk _ _ _ _ c => c
 
+/-- `-D -S -F -L -E`: the `SQFS_TREE_NO_*` flags of `sqfs_dir_reader_get_full_hierarchy` -/
+structure TreeFlags where
+  noDev : Bool := false
+  noSock : Bool := false
+  noFifo : Bool := false
+  noSlink : Bool := false
+  noEmpty : Bool := false
+  deriving DecidableEq, Repr, Inhabited
+
+/-- read_tree.c `should_skip`.  The C code looks at the type stored in the *directory entry*; the model assumes it
+    agrees with the inode's type (the forge writes it so). -/
+def shouldSkip (tf : TreeFlags) : Kind → Bool
+  | .blk | .chr => tf.noDev
+  | .lnk => tf.noSlink
+  | .sock => tf.noSock
+  | .fifo => tf.noFifo
+  | _ => false
+
 mutual
-/-- read_tree.c `create_node` (`strcpy` of the entry name) and `fill_dir` (recursion only into
-    `SQFS_INODE_DIR`/`EXT_DIR`); restore_fstree.c uses `(const char *)n->inode->extra` as the target. -/
-def decode : TNode → TNode
+/-- read_tree.c `create_node` (`strcpy` of the entry name) and `fill_dir` (entries dropped by `should_skip`;
+    recursion only into `SQFS_INODE_DIR`/`EXT_DIR`; with `SQFS_TREE_NO_EMPTY` a directory that ends up without
+    children is dropped); restore_fstree.c uses `(const char *)n->inode->extra` as the target and
+    `(const char *)key->key` as xattr name. -/
+def decode (tf : TreeFlags) : TNode → TNode
   | .mk n k p a ch =>
     .mk (cstr n) k (if k = .lnk then cstr p else p)
-      { a with xattrs := a.xattrs.map (fun kv => (cstr kv.1, kv.2)) }       -- `lsetxattr(path, (const char *)key->key, …)`
-      (if k = .dir then decodeL ch else [])
-def decodeL : List TNode → List TNode
+      { a with xattrs := a.xattrs.map (fun kv => (cstr kv.1, kv.2)) }
+      (if k = .dir then decodeL tf ch else [])
+def decodeL (tf : TreeFlags) : List TNode → List TNode
   | [] => []
-  | c :: cs => decode c :: decodeL cs
+  | c :: cs =>
+    if shouldSkip tf c.kind then decodeL tf cs
+    else
+      let c' := decode tf c
+      if c'.kind = .dir && c'.children.isEmpty && tf.noEmpty then decodeL tf cs
+      else c' :: decodeL tf cs
 end
 
 /-- `sqfs_dir_reader_get_full_hierarchy`'s walk along `--unpack-path` (already canonicalised by options.c, so
@@ -334,7 +359,7 @@ def unpackTree (ord : List FileEnt → List FileEnt) (fl : Flags) (t : TNode) : 
 
 /-- the plan for a raw tree (the driver uses directory order for the file list; the check compares the
     fill phase as a multiset) -/
-def unpackPlan (raw : TNode) (fl : Flags) : Out := unpackTree id fl (decode raw)
+def unpackPlan (raw : TNode) (fl : Flags) (tf : TreeFlags := {}) : Out := unpackTree id fl (decode tf raw)
 
 def Out.syscalls (o : Out) : List Syscall :=
   o.evs.filterMap (fun | .sys s => some s | .skip _ => none)
